@@ -70,6 +70,7 @@ pub struct XOut {
     pub panic: Option<String>,
     pub feeds: Vec<Value>,
     pub parents_ok: bool,
+    pub ser: Value,
 }
 
 pub fn run_xml(chunks: &[String], exact: bool, bom: bool, profile: bool, gc: bool) -> XOut {
@@ -115,7 +116,8 @@ pub fn run_xml_opts(chunks: &[String], exact: bool, bom: bool, profile: bool, gc
     let ok = panic.is_none() && want_tree;
     let tree = if ok { dump(&tok.sink.tb.sink.inner.document) } else { json!({"k":"none"}) };
     let parents_ok = if ok { parents_consistent(&tok.sink.tb.sink.inner.document) } else { true };
-    XOut { events, tree, dom: None, panic, feeds, parents_ok }
+    let ser = if ok { ser_events(&tok.sink.tb.sink.inner.document) } else { json!([]) };
+    XOut { events, tree, dom: None, panic, feeds, parents_ok, ser }
 }
 
 /// plain parse into RcDom (for serializer round trips)
@@ -428,7 +430,7 @@ pub fn main(args: &Args) {
                         out.line(&e);
                     }
                     out.line(&json!({"ev":"tree","case":id,"dom":xo.tree,"quirks":"no","parents_ok":xo.parents_ok,
-                                     "panic": match &xo.panic { Some(m) => json!([cps(m)]), None => json!([]) }, "neof": neof}));
+                                     "panic": match &xo.panic { Some(m) => json!([cps(m)]), None => json!([]) }, "neof": neof, "ser": xo.ser}));
                 }
             },
             "ser" => {
